@@ -11,6 +11,8 @@
 (* The abstract machine remembers the database of every set it has seen;   *)
 (* a load of a known set is possible only if it yields that database.      *)
 (* A crashed load has no digest ("crash" lines match no action).           *)
+(* Two more kinds of lines state "forward references resolve" (Reload,     *)
+(* Copies below).                                                          *)
 (***************************************************************************)
 EXTENDS TraceLib
 
@@ -28,7 +30,23 @@ Load ==
           ELSE known' = [x \in (DOMAIN known) \cup {e.set} |-> IF x = e.set THEN e.digest ELSE known[x]]
   /\ l' = l + 1
 
-Next == Load
+\* "forward references resolve": of the definitions a load of the set refused, every one is refused again when it
+\* is loaded once more, alone, on top of the finished database - where every reference is a backward reference
+\*   [ev |-> "reload", set, refused |-> n, still |-> m, amb |-> a reference of the set has two readings]
+\* (Loader.ForwardRefsResolve with the resolver abstracted away; sets with an ambiguous reference are outside its scope)
+Reload ==
+  /\ l <= NRec
+  /\ LET e == Rec[l] IN e.ev = "reload" /\ (e.amb \/ e.still = e.refused)
+  /\ l' = l + 1 /\ UNCHANGED known
+
+\* the set extended by a copy of each of its definitions under a fresh name: every copy means what its original means
+\*   [ev |-> "copies", set, copies |-> n, agree |-> m]
+Copies ==
+  /\ l <= NRec
+  /\ LET e == Rec[l] IN e.ev = "copies" /\ e.agree = e.copies
+  /\ l' = l + 1 /\ UNCHANGED known
+
+Next == Load \/ Reload \/ Copies
 Spec == Init /\ [][Next]_<<l, known>>
 Reached == Mark(l)
 =============================================================================
